@@ -1,15 +1,49 @@
 """C04 — exact arithmetic kernels (bignum.c) against a wide-integer oracle."""
-from vf import Query
+import os, re
+from vf import Query, REPO
 from common import R_ASSUME, ENV_MODEL
 
 UNITS = ['repo:bignum.c', 'kit:env.c', 'kit:libc_models.c']
 H = 'C04_bignum.c'
 OPN = {'ADDD': 15, 'SUBD': 16, 'ADD': 1, 'SUB': 2, 'CMP': 3, 'NORM': 4, 'FXADD': 5, 'FXSUB': 6, 'F2B': 7, 'LSINT': 8, 'LUINT': 9, 'ADDFIX': 10,
-       'GADD': 11, 'GSUB': 12, 'GCMP': 13, 'COPY': 14}
+       'GADD': 11, 'GSUB': 12, 'GCMP': 13, 'COPY': 14, 'GMUL': 17, 'GQUOREM': 18, 'FXMUL': 20, 'FXDIV': 21, 'FXREM': 22, 'MUL': 23, 'QUOTREM': 24}
 FUNCTIONS = ['sexp_bignum_add', 'sexp_bignum_sub', 'sexp_bignum_add_digits', 'sexp_bignum_sub_digits', 'sexp_bignum_compare',
              'sexp_bignum_compare_abs', 'sexp_bignum_hi', 'sexp_bignum_zerop', 'sexp_bignum_normalize', 'sexp_bignum_fxadd',
              'sexp_bignum_fxsub', 'sexp_fixnum_to_bignum', 'sexp_make_integer_from_lsint', 'sexp_make_unsigned_integer_from_luint',
              'sexp_bignum_add_fixnum', 'sexp_add', 'sexp_sub', 'sexp_compare', 'sexp_copy_bignum', 'sexp_make_bignum']
+
+
+UNITS_IND = ['work:bignum_ind.c', 'kit:env.c', 'kit:libc_models.c']
+UNITS_IND2 = ['work:bignum_ind2.c', 'kit:env.c', 'kit:libc_models.c']
+UNITS_IND3 = ['work:bignum_ind3.c', 'kit:env.c', 'kit:libc_models.c']
+
+
+def _def_re(fn):
+    return re.compile(r'^sexp\s+%s\s*\(\s*sexp\s+ctx\s*,\s*(sexp\s+dst\s*,\s*)?sexp\s+a\s*,\s*sexp\s+b\s*\)\s*\{' % fn, re.M)
+
+
+def prepare(run, tier):
+    """Compositional queries.  One Karatsuba level and the multi-word quotient loop are checked with
+    the calls to sexp_bignum_mul/add/sub (level 2) and also the generic sexp_add/sexp_sub (level 3) answered by their
+    specifications: a copy of the current bignum.c in which only the *definitions* are renamed to
+    <name>_body, so that every call site binds to the harness model.  The renamed bodies themselves are
+    checked by the bignum_mul / bignum_add / bignum_sub / add_digits / sub_digits queries."""
+    src = os.path.join(REPO, 'bignum.c')
+    txt = open(src, errors='replace').read()
+    for out, fns in (('bignum_ind2.c', ['sexp_bignum_mul', 'sexp_bignum_add', 'sexp_bignum_sub']),
+                     ('bignum_ind3.c', ['sexp_bignum_mul', 'sexp_bignum_add', 'sexp_bignum_sub', 'sexp_add', 'sexp_sub'])):
+        new = txt
+        for fn in fns:
+            new, n = _def_re(fn).subn(lambda m: 'sexp %s_body (sexp ctx, %ssexp a, sexp b) {' % (fn, 'sexp dst, ' if m.group(1) else ''), new)
+            if n != 1:
+                raise RuntimeError('C04: definition of %s not found exactly once in bignum.c (%d)' % (fn, n))
+        with open(os.path.join(run.work, out), 'w') as f:
+            f.write('#line 1 "%s"\n' % src)
+            f.write(new)
+        run.src_dirs[os.path.join(run.work, out)] = REPO
+    run.extra_assumptions.append('compositional queries (karatsuba_step, bignum_quot_rem with b of 2+ words): calls to sexp_bignum_mul/add/sub inside the '
+                                 'checked body are answered by their specifications (exact value, sign, fixed result length with leading zero words); '
+                                 'termination of the recursion is not part of the claim')
 
 
 # R5 frontier cuts: with exact-integer operands the flonum / ratio / complex arms of the generic
@@ -20,12 +54,25 @@ CUTS = ['sexp_ratio_[a-z_]*', 'sexp_complex_[a-z_]*', 'sexp_make_ratio', 'sexp_m
         'sexp_fp_add', 'sexp_fp_sub', 'sexp_fp_mul', 'sexp_fp_div', 'sexp_to_double', 'sexp_ratio_normalize']
 
 
-FIX_Q = [0, -1, 1, (1 << 61) - 1, -(1 << 61)]
-FIX_T = FIX_Q + [2, -2, 1 << 31, (1 << 32) - 1, -(1 << 32), (1 << 61) - 2, -(1 << 61) + 1, 1 << 60, 0x1555555555555555]
+MULDIV = {'sexp_bignum_mul', 'sexp_bignum_quot_rem', 'sexp_mul', 'sexp_quotient', 'sexp_remainder'}
+CUTS_MD = [c for c in CUTS if c not in MULDIV]
+
+# word constants for the D-const products/quotients: the radices of the number reader/printer and boundary words
+WORDS_Q = [10, 16, 3, (1 << 32) + 1, (1 << 63) + 1]
+WORDS_T = [2, 10, 16, 36, 3, 7, 0xff, 1 << 32, (1 << 32) + 1, 1 << 63, (1 << 63) + 1, (1 << 63) + (1 << 31) + 1]
+DENSE = (1 << 64) - 1       # dense multipliers give no SAT verdict (R7); division by it does
+
+
+def wc(v):
+    return '0x%xUL' % v
+
+
+FIX_Q = [0, -1, 1, (1 << 62) - 1, -(1 << 62)]
+FIX_T = FIX_Q + [2, -2, 1 << 31, (1 << 32) - 1, -(1 << 32), (1 << 62) - 2, -(1 << 62) + 1, 1 << 61, 0x1555555555555555]
 
 
 def cval(v):
-    return '(%dL)' % v if v > -(1 << 61) else '(-%dL-1)' % ((1 << 61) - 1)
+    return '(%dL)' % v if v > -(1 << 62) else '(-%dL-1)' % ((1 << 62) - 1)
 
 
 def queries(tier):
@@ -34,11 +81,11 @@ def queries(tier):
     cap = 240 if tier == 'quick' else 1800
     pf = ['cadical', 'minisat', 'kissat']
 
-    def q(name, defs, fns, unwind=5, backends=('cadical', 'minisat'), **kw):
+    def q(name, defs, fns, unwind=5, backends=('cadical', 'minisat'), unwindset=None, **kw):
         defs = dict(defs)
         defs.setdefault('KIT_MAXW', 4)
-        qs.append(Query(name=name, harness=H, units=UNITS, defs=defs, unit_defs={'KIT_FLAT_NUMERIC': 1, 'KIT_MAX_WORDS': 8}, unwind=unwind, cap=cap,
-                        backends=list(backends), functions=fns, **kw))
+        qs.append(Query(name=name, harness=H, units=kw.pop('units', UNITS), defs=defs, unit_defs={'KIT_FLAT_NUMERIC': 1, 'KIT_MAX_WORDS': 8}, unwind=unwind, cap=cap,
+                        backends=list(backends), functions=fns, unwindset=unwindset or {}, **kw))
     for op in ('ADD', 'SUB'):
         for a in range(1, K + 1):
             for b in range(1, K + 1):
@@ -89,6 +136,85 @@ def queries(tier):
             for w in fix:
                 q('%s[fix=%d,fix=%d]' % (fn, v, w), {'OP': OPN[op], 'AK': 0, 'BK': 0, 'AV': cval(v), 'BV': cval(w)}, [fn],
                   unwind=6, cuts=CUTS, backends=['minisat'])
+    # ---- products and quotients, R7 domains: one operand constant, the other free ----
+    words = WORDS_Q if tier == 'quick' else WORDS_T
+    pfa = ['cadical', 'minisat', 'kissat']
+    for a in range(1, K + 1):
+        for w in words:
+            if tier == "quick" and a > 1 and w not in (10, 16, 3):
+                continue
+            q('fxmul[%d,w=%#x]' % (a, w), {'OP': OPN['FXMUL'], 'AK': a, 'W': wc(w)}, ['sexp_bignum_fxmul'], backends=pfa)
+            q('fxmul[%d,w=%#x,dst=a]' % (a, w), {'OP': OPN['FXMUL'], 'AK': a, 'W': wc(w), 'ALIAS': 1}, ['sexp_bignum_fxmul'], backends=pfa)
+            q('fxdiv[%d,w=%#x]' % (a, w), {'OP': OPN['FXDIV'], 'AK': a, 'W': wc(w)}, ['sexp_bignum_fxdiv'], backends=pfa)
+            if w == 10 and a == 1:
+                q('fxdiv[%d,w=%#x]' % (a, DENSE), {'OP': OPN['FXDIV'], 'AK': a, 'W': wc(DENSE)}, ['sexp_bignum_fxdiv'], backends=pfa)
+            if w < (1 << 62):
+                q('fxrem[%d,w=%d]' % (a, w), {'OP': OPN['FXREM'], 'AK': a, 'W': '(%dL)' % w}, ['sexp_bignum_fxrem', 'sexp_bignum_fxdiv'], backends=pfa)
+                if w in (3, 10, 16):
+                    q('fxrem[%d,w=%d]' % (a, -w), {'OP': OPN['FXREM'], 'AK': a, 'W': '(%dL)' % -w}, ['sexp_bignum_fxrem', 'sexp_bignum_fxdiv'], backends=pfa)
+    # constant bignum operands (words from the boundary lattice)
+    CB1 = [[3], [(1 << 63) + 1], [1 << 63]] if tier == 'quick' else [[1], [3], [10], [1 << 32], [(1 << 63) + 1], [1 << 63], [(1 << 62)]]
+    CB2 = [[(1 << 63) + 1, 1], [5, 1 << 63]] if tier == 'quick' else [[(1 << 63) + 1, 1], [5, 1 << 63], [0, 1], [(1 << 63) + 1, (1 << 63) + 1], [1, 1 << 32], [(1 << 63) + 1, 3]]
+    CB3 = [[7, (1 << 63) + 1, 1 << 31]]
+
+    # sexp_bignum_mul recurses (operand swap, Karatsuba); the recursion bound is checked by an unwinding assertion
+    RECUR = {'sexp_bignum_mul': 3, 'model_sum.0': 12, 'sexp_bignum_mul.0': 12, 'wide_of.0': 8}
+    ATOPS = [1, (1 << 64) - 1, 1 << 63, 0x8000000000000001]
+
+    def bdefs(ws, sign=1):
+        d = {'BK': len(ws), 'BSIGN': sign}
+        for i, w in enumerate(ws):
+            d['BW%d' % i] = wc(w)
+        return d
+
+    def bname(ws, sign=1):
+        return ('-' if sign < 0 else '') + ':'.join('%x' % w for w in reversed(ws))
+    for a in range(1, K + 1):
+        for ws in CB1 + CB2 + (CB3 if tier != 'quick' else []):
+            if tier == 'quick' and a + len(ws) > 3 and not (a == 2 and ws == CB2[0]):
+                continue
+            for sign in (1, -1):
+                if sign < 0 and tier == 'quick' and len(ws) > 1:
+                    continue
+                ind = len(ws) > 1 and a > 1          # Karatsuba / multi-word quotient loop: inductive (see prepare)
+                d = dict(bdefs(ws, sign), OP=OPN['MUL'], AK=a, KIT_MAXW=6, WIDE_BITS=448)
+                if a > 1:
+                    d['ATOP'] = wc(ATOPS[(a + len(ws) + (sign < 0)) % len(ATOPS)])
+                if ind:
+                    d['MUL_MODEL'] = 2
+                kw = dict(backends=pfa, unwind=7, cuts=CUTS_MD, unwindset=RECUR)
+                if ind:
+                    kw['units'] = UNITS_IND2
+                nm = 'karatsuba_step' if ind else 'bignum_mul'
+                q('%s[%d,b=%s]' % (nm, a, bname(ws, sign)), d, ['sexp_bignum_mul', 'sexp_bignum_fxmul'], **kw)
+                if sign > 0 and a != len(ws):
+                    q('%s[b=%s,%d]' % (nm, bname(ws, sign), a), dict(d, SWAP=1), ['sexp_bignum_mul', 'sexp_bignum_fxmul'], **kw)
+                d = dict(bdefs(ws, sign), OP=OPN['QUOTREM'], AK=a, KIT_MAXW=6, WIDE_BITS=448)
+                if ind:
+                    d['ATOP'] = wc([(1 << 64) - 1, (1 << 63) + 5][(a + len(ws) + (sign < 0)) % 2])   # large dividends: the quotient is a full word
+                    d['MUL_MODEL'] = 3
+                    kw['units'] = UNITS_IND3
+                q('bignum_quot_rem[%d,b=%s]' % (a, bname(ws, sign)), d, ['sexp_bignum_quot_rem', 'sexp_bignum_mul', 'sexp_bignum_fxdiv'], **kw)
+    # the estimate-and-correct path of the quotient loop (first estimate 0, second estimate overshoots depending on the
+    # free low word): dividend 1:2^63:*, divisor 1:2^63+1
+    d = dict(bdefs([(1 << 63) + 1, 1]), OP=OPN['QUOTREM'], AK=3, KIT_MAXW=6, WIDE_BITS=448, ATOP=wc(1), AMID=wc(1 << 63), MUL_MODEL=3)
+    q('bignum_quot_rem[3=1:8000000000000000:*,b=1:8000000000000001]', d, ['sexp_bignum_quot_rem'], backends=pfa, unwind=7, cuts=CUTS_MD, unwindset=RECUR, units=UNITS_IND3)
+    # generic dispatch
+    for a in range(1, K + 1):
+        for v in fix:
+            if tier == 'quick' and a > 1:
+                continue
+            if bin(abs(v)).count('1') <= 8:     # dense multipliers (2^62-1, 0x1555...) give no SAT verdict (R7); the divisions keep them
+                q('sexp_mul[big%d,fix=%d]' % (a, v), {'OP': OPN['GMUL'], 'AK': a, 'BK': 0, 'BV': cval(v)}, ['sexp_mul'], unwind=7, cuts=CUTS_MD, backends=pfa)
+                q('sexp_mul[fix=%d,big%d]' % (v, a), {'OP': OPN['GMUL'], 'AK': a, 'BK': 0, 'BV': cval(v), 'SWAP': 1}, ['sexp_mul'], unwind=7, cuts=CUTS_MD, backends=pfa)
+            if v != 0:
+                q('quotient+remainder[big%d,fix=%d]' % (a, v), {'OP': OPN['GQUOREM'], 'AK': a, 'BK': 0, 'BV': cval(v)}, ['sexp_quotient', 'sexp_remainder'], unwind=7, cuts=CUTS_MD, backends=pfa)
+            q('quotient+remainder[fix=%d,big%d]' % (v, a), {'OP': OPN['GQUOREM'], 'AK': 0, 'BK': a, 'AV': cval(v)}, ['sexp_quotient', 'sexp_remainder'], unwind=7, cuts=CUTS_MD, backends=pfa)
+    for v in fix:
+        for w in fix:
+            q('sexp_mul[fix=%d,fix=%d]' % (v, w), {'OP': OPN['GMUL'], 'AK': 0, 'BK': 0, 'AV': cval(v), 'BV': cval(w)}, ['sexp_mul'], unwind=7, cuts=CUTS_MD, backends=['minisat'])
+            if w != 0:
+                q('quotient+remainder[fix=%d,fix=%d]' % (v, w), {'OP': OPN['GQUOREM'], 'AK': 0, 'BK': 0, 'AV': cval(v), 'BV': cval(w)}, ['sexp_quotient', 'sexp_remainder'], unwind=7, cuts=CUTS_MD, backends=['minisat'])
     return qs
 
 
